@@ -217,3 +217,16 @@ Proof.
   destruct (log_at cfg lvl) as [e|]; [|discriminate].
   apply N.eqb_eq in Hs. subst e. reflexivity.
 Qed.
+
+(* non-vacuity: the table has the default configuration; it starts and is like itself *)
+Lemma configs_nonvacuous :
+  exists cfg, In cfg log_configs /\ lc_id cfg = 0 /\ started cfg = true /\ like_default cfg = true /\
+              stops_at cfg lvl_critical = true.
+Proof.
+  destruct cli_in_default as [cfg [Hf [Hin [Hst [Hl _]]]]].
+  exists cfg. split; [exact Hin|]. split.
+  { unfold find_config in Hf. apply find_some in Hf. apply N.eqb_eq. exact (proj2 Hf). }
+  split; [exact Hst|]. split; [exact Hl|].
+  pose proof (config_in_stops _ _ critical_stops_everywhere Hin) as H.
+  unfold config_stops_at in H. rewrite Hst in H. exact H.
+Qed.
